@@ -315,6 +315,47 @@ example : (batchSt.newCellsLoop pythonKeywords ["A"] [("g", 1), ("f", 2)]).2 = f
 example : (batchSt.batchStep pythonKeywords ["A"] [("g", 1), ("f", 2)]).2 = false ∧
     (batchSt.batchStep pythonKeywords ["A"] [("g", 1), ("f", 2)]).1.mem .cells ["A"] "g" = none := by decide
 
+/-! ### the calls that still create the space first
+
+`import_module` / `new_space_from_module` create the space and look at the functions of the module afterwards
+(`SM.St.newSpaceModule`, the `spacemodule` line of the `smech` driver - compared with the code call by call).
+`new_space_from_pandas` (since /repo 3927bad) checks the names first (`SM.St.newSpaceBatch`). -/
+
+/-- **The space-first call is not atomic** (known finding C11-import-module-space-first, as a statement about the
+model of the code AS IT IS): when the space can be created and the module is then refused, the call reports a
+refusal and returns the state WITH the new space - not the state it was given. -/
+theorem space_first_refusal_leaves_space (kw : List String) (st st1 : St) (parent : Path) (name : String)
+    (bases : List Path) (es : List (String × Nat))
+    (h1 : st.newSpaceRefs kw parent name bases [] = some st1)
+    (h2 : st1.moduleBatch kw (parent ++ [name]) es = none) :
+    st.newSpaceModule kw parent name bases es = (st1, false) := by
+  simp [St.newSpaceModule, h1, h2]
+
+/-- a model-level reference `g`; a module with the functions `a` and `g` -/
+def globalSt : St := St.run pythonKeywords {} (chainOps ++ [.setGlobal "g"])
+
+example : (globalSt.newSpaceModule pythonKeywords [] "T" [["A"]] [("a", 1), ("g", 2)]).2 = false ∧
+    (globalSt.newSpaceModule pythonKeywords [] "T" [["A"]] [("a", 1), ("g", 2)]).1.has ["T"] = true ∧
+    globalSt.has ["T"] = false := by decide
+
+/-- the names-first call refuses the same request without a trace; both accept the same good request -/
+example : globalSt.newSpaceBatch pythonKeywords [] "T" [("a", 1), ("g", 2)] = none ∧
+    (globalSt.newSpaceBatch pythonKeywords [] "T" [("a", 1), ("h", 2)]).isSome = true ∧
+    (globalSt.newSpaceModule pythonKeywords [] "T" [["A"]] [("a", 1), ("h", 2)]).2 = true := by decide
+
+/-- **A refused `new_cells_from_module` / `new_space_from_pandas` changes nothing** (by the type of the step, as
+`batch_refused_changes_nothing`; that the CODE does what the model says is the `smech` correspondence) -/
+theorem module_refused_changes_nothing (kw : List String) (st : St) (p : Path) (es : List (String × Nat))
+    (h : (st.moduleStep kw p es).2 = false) : (st.moduleStep kw p es).1 = st := by
+  unfold St.moduleStep at h ⊢
+  cases hop : st.moduleBatch kw p es with
+  | none => rfl
+  | some st' => rw [hop] at h; cases h
+
+example : (batchSt.moduleStep pythonKeywords ["B"] [("f", 5), ("h", 2)]).2 = true ∧
+    (globalSt.moduleStep pythonKeywords ["A"] [("a", 1), ("g", 2)]).2 = false := by decide
+
+
 end mechanism
 
 end MxModel.C11
